@@ -79,7 +79,12 @@ class Setup:
             W.c.add_trigger("dt", lambda k: z3.Implies(z3.And(k >= 0, k < zn), dtf(k) > 0))
             self.dt = dt
             args = dict(dims=mk_set(W, self.dims), stock=stock, inflow=inflow, outflow=outflow, name="s", process=None, time_letter="t")
-            if kind != "flow":
+            if kind != "flow" and "sf" in preset:
+                self.sf, self.pdf = preset["sf"], preset["pdf"]
+                args["lifetime_model"] = FakeLifetime(self.sf, self.pdf, args["dims"])
+                if kind == "stock":
+                    args["solver"] = solver
+            elif kind != "flow":
                 sf = W.ndarray("sf", [self.n, self.n] + self.esizes)
                 sff = z3.Function("sf", *([z3.IntSort()] * (2 + n_extra)), z3.RealSort())
 
@@ -676,17 +681,15 @@ def u_stock_balance(W, sk):
     W.forall_range("get_stock_balance.is_annual_residual", rngs, lambda idx: W.num_eq(bal(*idx), resid(*idx)), detail="balance(t) = inflow(t) - outflow(t) - (stock(t) - stock(t-1)) / dt(t)")
     if sk["case"] == "balanced":
         W.forall_range("get_stock_balance.zero_for_balanced_arrays", rngs, lambda idx: W.num_eq(bal(*idx), 0))
-    out2 = W.call(lambda: s.check_stock_balance())
     if W.symbolic:
-        # the terms check_stock_balance decides on, rebuilt from the returned balance (canonical => identical)
+        # the terms check_stock_balance decides on, rebuilt from the returned balance (canonical => identical);
+        # the facts about them are established *before* the call, so the impossible branch is never entered
         A = symnp.sym_sum(symnp.sym_abs(B), axis=0)
         M = symnp.sym_max(A) if isinstance(A, symnp.SymArr) else A
-        col = lambda r: (wrap(A.at(*r)) if isinstance(A, symnp.SymArr) else A)
         absb = lambda t, *r: abs(bal(t, *r))
         if sk["case"] == "balanced":
             # every column sum is zero, and the maximum is attained at some column
             if isinstance(A, symnp.SymArr):
-                info = symnp.reduction_info(M)
                 wr = tuple(wrap(z3.Int(f"w_{str(core.unwrap(M).decl().name())}_{j}")) for j in range(A.ndim))
             else:
                 wr = ()
@@ -701,6 +704,7 @@ def u_stock_balance(W, sk):
             W.lemma_sum_nonneg("check.perturbed.right", t0 + 1, n, f)
             if isinstance(A, symnp.SymArr):
                 W.c.assume(symnp.reduction_bound_fact(M, r0), why="definition of max")
+    out2 = W.call(lambda: s.check_stock_balance())
     if sk["case"] == "balanced":
         W.prove("check_stock_balance.accepts_balanced_arrays", out2.kind == "return", detail=repr(out2))
     else:
@@ -853,3 +857,285 @@ def u_round_trip(W, sk):
         compare_results(W, "round_trip", A, B, agree, rs)
     else:
         compare_results(W, "round_trip", A, B, None, None)
+
+
+# ----------------------------------------------------------------------------------------
+# C16: linear, causal, label-independent, impulse response  (relational obligations over several runs)
+
+
+def _expr_array(W, S, fn):
+    """array over S's dims with entries fn(t, *r) (symbolic world)"""
+    shape = [S.n] + S.esizes
+    return symnp.SymArr.fresh(shape, lambda idx: to_real(fn(*[wrap(i) if z3.is_expr(i) else i for i in idx])))
+
+
+def _all_results(S):
+    s = S.s
+    out = {"stock": (S.rd(s.stock.values), 1), "inflow": (S.rd(s.inflow.values), 1), "outflow": (S.rd(s.outflow.values), 1)}
+    out["stock_by_cohort"] = (S.rd(s._stock_by_cohort), 2)
+    out["outflow_by_cohort"] = (S.rd(s._outflow_by_cohort), 2)
+    return out
+
+
+@unit(
+    "stocks.linearity",
+    props=["C16"],
+    targets=["flodym.stocks.InflowDrivenDSM.compute", "flodym.stocks.StockDrivenDSM.compute", "flodym.stocks.DynamicStockModel._compute_outflow"],
+    skeletons=lambda tier: [{"model": "inflow", "extra": e, "solver": None} for e in (0, 1)] + [{"model": "stock", "extra": 0, "solver": "manual"}, {"model": "stock", "extra": 1, "solver": "manual"}, {"model": "stock", "extra": 0, "solver": "lapack"}],
+    stubs=["flodym.lifetime_models.LifetimeModel.sf", "flodym.lifetime_models.LifetimeModel.pdf", "flodym.lifetime_models.UnevenTimeDim.interval_lengths", "scipy.linalg.solve_triangular"],
+    note="driver alpha*d1 + beta*d2 gives alpha*results1 + beta*results2 (stock, inflow, outflow, both cohort tables)",
+)
+def u_linearity(W, sk):
+    kind = sk["model"]
+    drv = "inflow" if kind == "inflow" else "stock"
+    conc = [] if (kind == "stock" and sk["solver"] == "lapack") else None
+    S1 = Setup(W, kind, sk["extra"], solver=sk["solver"] or "manual", concrete_extra=conc, tag="_1")
+    S2 = Setup(W, kind, sk["extra"], solver=sk["solver"] or "manual", concrete_extra=conc, tag="_2")
+    al, be = W.number("alpha"), W.number("beta")
+    d1 = S1.rd(getattr(S1.s, drv).values.copy())
+    d2 = S2.rd(getattr(S2.s, drv).values.copy())
+    if W.symbolic:
+        d3v = _expr_array(W, S1, lambda t, *r: al * d1(t, *r) + be * d2(t, *r))
+    else:
+        d3v = al * getattr(S1.s, drv).values + be * getattr(S2.s, drv).values
+    S3 = Setup(W, kind, sk["extra"], solver=sk["solver"] or "manual", concrete_extra=conc, preset={drv: d3v}, tag="_3")
+    sols = []
+    for S in (S1, S2, S3):
+        if kind == "inflow":
+            out = W.call(lambda: S.s.compute())
+            sols.append((None, None))
+        else:
+            out, st0, sol = run_stock_driven(W, S)
+            sols.append((st0, sol))
+        W.prove("linearity.compute_returns", out.kind == "return", detail=repr(out))
+        if out.kind != "return":
+            return
+    n = S1.n
+    R1, R2, R3 = _all_results(S1), _all_results(S2), _all_results(S3)
+    agree = None
+    rs = [tuple(W.fresh_int(f"lin_r{j}", 0, e) for j, e in enumerate(S1.esizes))] if W.symbolic else None
+    if kind == "stock" and W.symbolic:
+        sf = S1.rd(S1.sf)
+        r = rs[0]
+        x1, row1 = solved_row(W, S1, sols[0][0], sols[0][1], r)
+        x2, row2 = solved_row(W, S2, sols[1][0], sols[1][1], r)
+        x3, row3 = solved_row(W, S3, sols[2][0], sols[2][1], r)
+        y = lambda j: al * x1(j) + be * x2(j)
+
+        def row_y(k):
+            ok1, ok2 = row1(k), row2(k)
+            W.c.assume(core.as_z3_bool(ok1), why="row equations of run 1 (proved in stocks.stock_driven.compute)")
+            W.c.assume(core.as_z3_bool(ok2), why="row equations of run 2 (proved in stocks.stock_driven.compute)")
+            return row_equation(W, S3, lambda j, *rr: y(j), sols[2][0], k, r)
+
+        # premises about runs 1 and 2 are re-proved here (not assumed): row1/row2 are obligations of this unit too
+        k = W.fresh_int("lin_k", 0, n)
+        W.prove("linearity.rows_run1", row1(k), kind="lemma-premise")
+        k = W.fresh_int("lin_k", 0, n)
+        W.prove("linearity.rows_run2", row2(k), kind="lemma-premise")
+        agree = W.lemma_tri_unique("linearity.unique", n, row3, row_y, lambda k: sf(k, k, *r) != 0, x3, y)
+    for nm in R1:
+        f1, f2, f3 = R1[nm][0], R2[nm][0], R3[nm][0]
+        nt = R1[nm][1]
+        if W.symbolic:
+            r = rs[0]
+            idx = tuple(W.fresh_int(f"lin_{nm}_{j}", 0, n) for j in range(nt))
+            if agree is not None:
+                for i in idx:
+                    agree(i)
+            if nm == "outflow" and agree is not None:
+                t = idx[0]
+                o1, o2, o3 = R1["outflow_by_cohort"][0], R2["outflow_by_cohort"][0], R3["outflow_by_cohort"][0]
+                W.lemma_sum_ext("linearity.outflow.summands", 0, n, lambda c: o3(t, c, *r), lambda c: al * o1(t, c, *r) + be * o2(t, c, *r), using=agree)
+                for (S, ob, of) in ((S1, o1, f1), (S2, o2, f2), (S3, o3, f3)):
+                    W.c.assume(to_real(of(t, *r)) == to_real(W.sum1("c", 0, n, lambda c: ob(t, c, *r))), why="outflow_is_sum_of_cohorts (proved in the compute units)")
+            W.prove(f"linearity.{nm}", W.num_eq(f3(*idx, *r), al * f1(*idx, *r) + be * f2(*idx, *r)))
+        else:
+            rngs = [(0, n)] * nt + S1.extra_ranges()
+            W.forall_range(f"linearity.{nm}", rngs, lambda idx: W.num_eq(f3(*idx), al * f1(*idx) + be * f2(*idx)))
+
+
+@unit(
+    "stocks.causality",
+    props=["C16"],
+    targets=["flodym.stocks.InflowDrivenDSM.compute", "flodym.stocks.StockDrivenDSM.compute"],
+    skeletons=lambda tier: [{"model": "inflow", "extra": 0, "solver": None}, {"model": "inflow", "extra": 1, "solver": None}, {"model": "stock", "extra": 0, "solver": "manual"}, {"model": "stock", "extra": 0, "solver": "lapack"}],
+    stubs=["flodym.lifetime_models.LifetimeModel.sf", "flodym.lifetime_models.LifetimeModel.pdf", "flodym.lifetime_models.UnevenTimeDim.interval_lengths", "scipy.linalg.solve_triangular"],
+    note="two drivers that coincide up to time step T give results that coincide up to T (every truncation point T symbolic)",
+)
+def u_causality(W, sk):
+    kind = sk["model"]
+    drv = "inflow" if kind == "inflow" else "stock"
+    conc = [] if (kind == "stock" and sk["solver"] == "lapack") else None
+    S1 = Setup(W, kind, sk["extra"], solver=sk["solver"] or "manual", concrete_extra=conc, tag="_1")
+    n = S1.n
+    d1 = S1.rd(getattr(S1.s, drv).values.copy())
+    if W.symbolic:
+        T = W.fresh_int("T", 0, n)
+        S2 = Setup(W, kind, sk["extra"], solver=sk["solver"] or "manual", concrete_extra=conc, tag="_2")
+        d2raw = S2.rd(getattr(S2.s, drv).values.copy())
+        # second driver: equal to the first up to T, arbitrary afterwards
+        d2v = _expr_array(W, S1, lambda t, *r: W.ite(t <= T, d1(t, *r), d2raw(t, *r)))
+        S2 = Setup(W, kind, sk["extra"], solver=sk["solver"] or "manual", concrete_extra=conc, preset={drv: d2v}, tag="_2b")
+    else:
+        import numpy as np
+
+        T = W.rng.randrange(n)
+        v = np.array(getattr(S1.s, drv).values, copy=True)
+        v[T + 1 :] += 1.0 + np.arange(v[T + 1 :].size).reshape(v[T + 1 :].shape)
+        S2 = Setup(W, kind, sk["extra"], solver=sk["solver"] or "manual", concrete_extra=conc, preset={drv: v}, tag="_2b")
+    sols = []
+    for S in (S1, S2):
+        if kind == "inflow":
+            out = W.call(lambda: S.s.compute())
+            sols.append((None, None))
+        else:
+            out, st0, sol = run_stock_driven(W, S)
+            sols.append((st0, sol))
+        W.prove("causality.compute_returns", out.kind == "return", detail=repr(out))
+        if out.kind != "return":
+            return
+    R1, R2 = _all_results(S1), _all_results(S2)
+    if not W.symbolic:
+        for nm in R1:
+            nt = R1[nm][1]
+            rngs = [(0, T + 1)] + [(0, n)] * (nt - 1) + S1.extra_ranges()
+            W.forall_range(f"causality.{nm}", rngs, lambda idx: W.num_eq(R1[nm][0](*idx), R2[nm][0](*idx)))
+        return
+    r = tuple(W.fresh_int(f"cau_r{j}", 0, e) for j, e in enumerate(S1.esizes))
+    sf, pdf = S1.rd(S1.sf), S1.rd(S1.pdf)
+    agree = lambda k: None
+    if kind == "stock":
+        x1, row1 = solved_row(W, S1, sols[0][0], sols[0][1], r)
+        x2, row2 = solved_row(W, S2, sols[1][0], sols[1][1], r)
+        # the first T+1 rows of both systems have the same right-hand side: uniqueness on the prefix
+        def row2_vs_stock1(k):
+            ok = row2(k)
+            W.c.assume(core.as_z3_bool(ok), why="row equations of run 2 (premise proved below)")
+            return row_equation(W, S1, lambda j, *rr: x2(j), sols[0][0], k, r)
+
+        k = W.fresh_int("cau_k", 0, n)
+        W.prove("causality.rows_run2", row2(k), kind="lemma-premise")
+        agree = W.lemma_tri_unique("causality.unique_prefix", T + 1, row1, row2_vs_stock1, lambda k: sf(k, k, *r) != 0, x1, x2)
+    t = W.fresh_int("cau_t", 0, T + 1)
+    c = W.fresh_int("cau_c", 0, n)
+    agree(t)
+    if kind == "stock":
+        # cohorts beyond T do not matter for t <= T (their tables vanish); cohorts up to T agree
+        pass
+    i1, i2 = R1["inflow"][0], R2["inflow"][0]
+    W.prove("causality.inflow", W.num_eq(i1(t, *r), i2(t, *r)))
+    sb1, sb2 = R1["stock_by_cohort"][0], R2["stock_by_cohort"][0]
+    ob1, ob2 = R1["outflow_by_cohort"][0], R2["outflow_by_cohort"][0]
+    if bool(c <= T):
+        agree(c)
+    W.prove("causality.stock_by_cohort", W.num_eq(sb1(t, c, *r), sb2(t, c, *r)))
+    W.prove("causality.outflow_by_cohort", W.num_eq(ob1(t, c, *r), ob2(t, c, *r)))
+
+    def using(cc):
+        if kind == "stock":
+            # case split on cc <= T inside the premise: add the agreement as an implication
+            W.c.assume(z3.Implies(to_int(cc) <= to_int(T), to_real(x1(cc)) == to_real(x2(cc))), why="TRI-UNIQUE (prefix)")
+
+    W.lemma_sum_ext("causality.stock.summands", 0, n, lambda cc: sb1(t, cc, *r), lambda cc: sb2(t, cc, *r), using=using)
+    W.lemma_sum_ext("causality.outflow.summands", 0, n, lambda cc: ob1(t, cc, *r), lambda cc: ob2(t, cc, *r), using=using)
+    for (S, R) in ((S1, R1), (S2, R2)):
+        W.c.assume(to_real(R["outflow"][0](t, *r)) == to_real(W.sum1("c", 0, n, lambda cc: R["outflow_by_cohort"][0](t, cc, *r))), why="outflow_is_sum_of_cohorts (proved in the compute units)")
+        W.c.assume(to_real(R["stock"][0](t, *r)) == to_real(W.sum1("c", 0, n, lambda cc: R["stock_by_cohort"][0](t, cc, *r))), why="stock_is_sum_of_cohorts (proved in the compute units)")
+    W.prove("causality.stock", W.num_eq(R1["stock"][0](t, *r), R2["stock"][0](t, *r)))
+    W.prove("causality.outflow", W.num_eq(R1["outflow"][0](t, *r), R2["outflow"][0](t, *r)))
+
+
+@unit(
+    "stocks.impulse_and_label_independence",
+    props=["C16"],
+    targets=["flodym.stocks.InflowDrivenDSM.compute", "flodym.stocks.InflowDrivenDSM._compute_stock"],
+    skeletons=lambda tier: [{"extra": 0}, {"extra": 1}],
+    stubs=["flodym.lifetime_models.LifetimeModel.sf", "flodym.lifetime_models.LifetimeModel.pdf", "flodym.lifetime_models.UnevenTimeDim.interval_lengths"],
+    note="unit inflow rate in one cohort c0: stock(t) = dt(c0) * sf(t, c0); every label combination evolves as if computed alone with its own survival table",
+)
+def u_impulse(W, sk):
+    S0 = Setup(W, "inflow", sk["extra"], tag="_0")
+    n = S0.n
+    if W.symbolic:
+        c0 = W.fresh_int("c0", 0, n)
+        imp = _expr_array(W, S0, lambda t, *r: W.ite(t == c0, 1, 0))
+    else:
+        import numpy as np
+
+        c0 = W.rng.randrange(n)
+        imp = np.zeros_like(S0.s.inflow.values)
+        imp[c0] = 1.0
+    S = Setup(W, "inflow", sk["extra"], preset={"inflow": imp}, tag="_imp")
+    out = W.call(lambda: S.s.compute())
+    W.prove("impulse.compute_returns", out.kind == "return", detail=repr(out))
+    if out.kind != "return":
+        return
+    stock = S.rd(S.s.stock.values)
+    sf = S.rd(S.sf)
+    inflow = S.rd(S.s.inflow.values)
+    if W.symbolic:
+        t = W.fresh_int("imp_t", 0, n)
+        r = tuple(W.fresh_int(f"imp_r{j}", 0, e) for j, e in enumerate(S.esizes))
+        X = S.dtk(c0) * sf(t, c0, *r)
+        W.lemma_sum_ext("impulse.summands", 0, n, lambda c: inflow(c, *r) * S.dtk(c) * sf(t, c, *r), lambda c: W.ite(c == c0, X, 0))
+        W.lemma_sum_delta("impulse.delta", 0, n, c0, X)
+        W.prove("impulse.response", W.num_eq(stock(t, *r), X), detail="stock response to a unit inflow rate in cohort c0 = dt(c0) * sf(t, c0)")
+    else:
+        W.forall_range("impulse.response", [(0, n)] + S.extra_ranges(), lambda idx: W.num_eq(stock(*idx), S.dtk(c0) * sf(idx[0], c0, *idx[1:])))
+    if sk["extra"] == 0:
+        return
+    # label independence: slice r0 of a run with an extra dimension = run without it on the sliced inputs
+    A = Setup(W, "inflow", 1, tag="_A")
+    outA = W.call(lambda: A.s.compute())
+    W.prove("labels.compute_returns", outA.kind == "return")
+    if W.symbolic:
+        r0 = W.fresh_int("r0", 0, A.esizes[0])
+        ia = A.rd(A.s.inflow.values)
+        sfa, pdfa = A.rd(A.sf), A.rd(A.pdf)
+        n = A.n
+        pre = {
+            "inflow": symnp.SymArr.fresh([n], lambda idx: to_real(ia(wrap(idx[0]), r0))),
+            "sf": symnp.SymArr.fresh([n, n], lambda idx: to_real(sfa(wrap(idx[0]), wrap(idx[1]), r0))),
+            "pdf": symnp.SymArr.fresh([n, n], lambda idx: to_real(pdfa(wrap(idx[0]), wrap(idx[1]), r0))),
+        }
+    else:
+        r0 = W.rng.randrange(A.esizes[0])
+        pre = {"inflow": A.s.inflow.values[:, r0]}
+    if W.symbolic:
+        Bq = Setup(W, "inflow", 0, preset=pre, tag="_B")
+        outB = W.call(lambda: Bq.s.compute())
+        W.prove("labels.alone_returns", outB.kind == "return")
+        RA, RB = _all_results(A), _all_results(Bq)
+        for nm in RA:
+            nt = RA[nm][1]
+            idx = tuple(W.fresh_int(f"lab_{nm}_{j}", 0, n) for j in range(nt))
+            W.prove(f"labels.{nm}", W.num_eq(RA[nm][0](*idx, r0), RB[nm][0](*idx)), detail="result at label r0 = result of the model computed alone for that label")
+
+
+# ----------------------------------------------------------------------------------------
+# must-fail guards
+
+
+@unit(
+    "stocks.mustfail_balance_without_interval_length",
+    props=["C03", "C09", "C10", "C16"],
+    targets=["flodym.stocks.SimpleFlowDrivenStock.compute"],
+    skeletons=lambda tier: [{"extra": 0}],
+    expect="refuted",
+)
+def u_mustfail_balance(W, sk):
+    if not W.symbolic:
+        W.grid_kind = "const"
+    S = Setup(W, "flow", sk["extra"])
+    s = S.s
+    inflow0, outflow0 = S.rd(s.inflow.values.copy()), S.rd(s.outflow.values.copy())
+    W.call(lambda: s.compute())
+    stock = S.rd(s.stock.values)
+    if W.symbolic:
+        t = W.fresh_int("bt", 1, S.n)
+        f = lambda k: (inflow0(k) - outflow0(k)) * S.dtk(k)
+        W.lemma_sum_unfold_last("mf.unfold", 0, t + 1, f)
+        W.prove("mf.balance(wrong: no interval length)", W.num_eq(stock(t) - stock(t - 1), inflow0(t) - outflow0(t)))
+    else:
+        W.forall_range("mf.balance(wrong: no interval length)", [(1, S.n)], lambda idx: W.num_eq(stock(idx[0]) - stock(idx[0] - 1), inflow0(idx[0]) - outflow0(idx[0])))
